@@ -377,3 +377,157 @@ def gen_descr(rng, max_classes=6):
         f1['opposite'] = [c2['name'], f2['name']]
         f2['opposite'] = [c1['name'], f1['name']]
     return {'enums': [dict(e) for e in ENUMS], 'classes': classes}
+
+
+# ------------------------------------------------------------------ arbitrary class bodies (mode 1 of run_staticdecl)
+# module = {'classes': [{'name','style': 'meta'|'deco'|'inherit','abstract','bases': [names], 'body': [entry]}],
+#           'post': [['type', c, k, t] | ['opp', c, k, c2, k2]]}
+# entry = {'key', 'kind': 'feat', 'ename': None|str, 'ref', 'type': None|name, 'lower','upper','ordered','unique','cont','default'}
+#       | {'key', 'kind': 'func', 'args': [names], 'ndefaults': n} | {'key', 'kind': 'static'} | {'key', 'kind': 'other'}
+BODY_KEYS = ['x', 'y', 'n', 'kids', 'owner', '_p', '__priv', '__du__', 'eClass', 'dyn_inst', '_staticEClass', 'm', 'run', 'z9']
+FUNC_ARGS = [['self'], ['self', 'a'], ['self', 'a', 'b'], [], ['this'], ['this', 'self'], ['self', 'k', 'unit', 'w']]
+
+
+def mangled(cname, key):
+    if key.startswith('__') and not key.endswith('__') and cname.strip('_'):
+        return '_' + cname.lstrip('_') + key
+    return key
+
+
+def gen_module(rng, max_classes=4):
+    ncls = rng.randrange(1, max_classes + 1)
+    names = rng.sample(CNAMES, ncls)
+    supers_of, classes = {}, []
+    for i, n in enumerate(names):
+        sup = []
+        if i and rng.random() < 0.5:
+            sup = rng.sample(names[:i], min(i, rng.choice([1, 1, 2])))
+            if not mro_ok(supers_of, n, sup):
+                sup = sup[:1]
+        supers_of[n] = sup
+        body = []
+        for _ in range(rng.choice([0, 1, 2, 3, 5, 7])):
+            key = rng.choice(BODY_KEYS)
+            r = rng.random()
+            if r < 0.55:
+                ref = rng.random() < 0.45
+                t = None if ref or rng.random() < 0.15 else rng.choice(BUILTIN_TYPES)
+                body.append({'key': key, 'kind': 'feat', 'ename': rng.choice([None, None, None, '', 'given', 'x', key]),
+                             'ref': ref, 'type': t, 'lower': rng.choice([0, 1]), 'upper': rng.choice([1, -1, 2]),
+                             'ordered': rng.random() < 0.8, 'unique': rng.random() < 0.8,
+                             'cont': ref and rng.random() < 0.3,
+                             'default': None if ref else rng.choice(ATTR_DEFAULTS[t or 'EJavaObject'])})
+            elif r < 0.8:
+                args = rng.choice(FUNC_ARGS)
+                body.append({'key': key, 'kind': 'func', 'args': list(args), 'ndefaults': rng.randrange(0, len(args) + 1)})
+            else:
+                body.append({'key': key, 'kind': rng.choice(['static', 'other'])})
+        style = 'inherit' if sup else rng.choice(['meta', 'deco'])
+        classes.append({'name': n, 'style': style, 'abstract': rng.random() < 0.25, 'bases': sup, 'body': body})
+    # what each key of a class finally holds
+    final = {}
+    for c in classes:
+        ns = {}
+        for e in c['body']:
+            ns[mangled(c['name'], e['key'])] = e
+        final[c['name']] = ns
+    feats = [(c['name'], k, e) for c in classes for k, e in final[c['name']].items()
+             if e['kind'] == 'feat' and k not in ('eClass', 'dyn_inst', '_staticEClass')]
+    refs = [(cn, k) for cn, k, e in feats if e['ref']]
+    post = []
+    for cn, k, e in feats:
+        if e['ref'] and rng.random() < 0.85:
+            post.append(['type', cn, k, rng.choice(names)])
+        elif rng.random() < 0.1:
+            post.append(['type', cn, k, rng.choice(names + ['EInt'])])
+    for _ in range(rng.choice([0, 0, 1, 2, 3])):
+        if refs:
+            a, b = rng.choice(refs), rng.choice(refs)
+            post.append(['opp', a[0], a[1], b[0], b[1]])
+    if rng.random() < 0.08:
+        post.insert(rng.randrange(len(post) + 1), ['type', rng.choice(names), rng.choice(['zz_unknown', '__priv']), names[0]])
+    return {'classes': classes, 'post': post}
+
+
+def entry_source(e):
+    k = e['key']
+    if e['kind'] == 'feat':
+        args = [] if e['ename'] is None else [f"name={e['ename']!r}"]
+        if e['type'] is not None:
+            args.append(f"eType={e['type']}")
+        args += [f"lower={e['lower']}", f"upper={e['upper']}", f"ordered={e['ordered']}", f"unique={e['unique']}"]
+        if e['ref']:
+            args.append(f"containment={e['cont']}")
+        elif e['default'] is not None:
+            args.append(f"default_value={e['default']!r}")
+        return [f"    {k} = {'EReference' if e['ref'] else 'EAttribute'}({', '.join(args)})"]
+    if e['kind'] == 'func':
+        n = len(e['args'])
+        ps = [a if j < n - e['ndefaults'] else a + '=None' for j, a in enumerate(e['args'])]
+        return [f"    def {k}({', '.join(ps)}):", '        return None']
+    if e['kind'] == 'static':
+        return [f"    {k} = staticmethod(_plain)"]
+    return [f"    {k} = 3"]
+
+
+def module_source(m):
+    L = list(PRELUDE) + ['def _plain(a=None):', '    return None']
+    for c in m['classes']:
+        if c['abstract']:
+            L.append('@abstract')
+        if c['style'] == 'deco':
+            L += ['@EMetaclass', f"class {c['name']}(object):"]
+        elif c['style'] == 'meta':
+            L.append(f"class {c['name']}(EObject, metaclass=MetaEClass):")
+        else:
+            L.append(f"class {c['name']}({', '.join(c['bases'])}):")
+        body = []
+        for e in c['body']:
+            body += entry_source(e)
+        L += body or ['    pass']
+    for s in m['post']:
+        if s[0] == 'type':
+            L.append(f"{s[1]}.{s[2]}.eType = {s[3]}")
+        else:
+            L.append(f"{s[1]}.{s[2]}.eOpposite = {s[3]}.{s[4]}")
+    return '\n'.join(L) + '\n'
+
+
+def enc_module(m, intern):
+    common.use_repo()
+    from pyecore import ecore as E
+    tab = [(n, intern.tok(getattr(E, n).default_value)) for n in BUILTIN_TYPES]
+    t = [len(tab)]
+    for n, d in tab:
+        t += cps(n) + opt(d)
+    t.append(len(m['classes']))
+    for c in m['classes']:
+        t += cps(c['name']) + [{'meta': 0, 'deco': 1, 'inherit': 2}[c['style']], int(c['abstract'])]
+        bases = c['bases'] if c['style'] == 'inherit' else (['object'] if c['style'] == 'deco' else ['EObject'])
+        t.append(len(bases))
+        for b in bases:
+            t += [0] if b == 'EObject' else [1] if b == 'object' else [2] + cps(b)
+        t.append(len(c['body']))
+        for e in c['body']:
+            t += cps(e['key'])
+            if e['kind'] == 'feat':
+                t += [0] + ([0] if e['ename'] is None else [1] + cps(e['ename'])) + [int(e['ref'])]
+                t += ([0] if e['type'] is None else [1] + cps(e['type']))
+                t += [e['lower'], e['upper'], int(e['ordered']), int(e['unique']), int(e['cont'])] + opt(intern.tok(e['default']))
+            elif e['kind'] == 'func':
+                t += [1, len(e['args']), e['ndefaults']]
+                for a in e['args']:
+                    t += cps(a)
+            else:
+                t += [2 if e['kind'] == 'static' else 3]
+    t.append(len(m['post']))
+    for s in m['post']:
+        t += ([0] + cps(s[1]) + cps(s[2]) + cps(s[3])) if s[0] == 'type' else ([1] + cps(s[1]) + cps(s[2]) + cps(s[3]) + cps(s[4]))
+    return t
+
+
+def ask_module(model, m, intern):
+    r = Reader(model.ask('staticdecl', [1] + enc_module(m, intern)))
+    res = r.result()
+    assert r.i == len(r.t), 'trailing tokens'
+    return res
